@@ -221,20 +221,27 @@ storage (`last_single` seeded from the SINGLE variable, `last_run = 0`, no overr
 declarations, bindings, access bindings, task table and retain configuration are untouched.
 **Process images:** `restart(Warm)` leaves the %I/%Q/%M images exactly as they were (outputs keep
 their last values until the next publish, %M-bound variables are reloaded from the marker image
-at the next latch); `restart(Cold)` zeroes all three. -/
+at the next latch); `restart(Cold)` zero-fills all three and PRESERVES THEIR LENGTHS (the image is
+sized once at start-up and an I/O driver delivers as many input bytes as the slice is long). -/
 theorem c09_restart_resets (mode : Mode) (rt rt' : Runtime) (h : restart mode rt = .ok rt') :
     rt'.time = 0 ∧ rt'.fault = none ∧ rt'.cycleCounter = 0 ∧ rt'.storage.frames = 0 ∧
     rt'.taskState = rt.tasks.map (fun t => registerTaskState rt'.storage 0 t.single) ∧
     rt'.globalsMeta = rt.globalsMeta ∧ rt'.fbs = rt.fbs ∧ rt'.programs = rt.programs ∧
     rt'.tasks = rt.tasks ∧ rt'.io.bindings = rt.io.bindings ∧ rt'.access = rt.access ∧
     rt'.retain = rt.retain ∧
-    (mode = .warm → rt'.io = rt.io) ∧ (mode = .cold → rt'.io = rt.io.zeroImages) := by
+    (mode = .warm → rt'.io = rt.io) ∧
+    (mode = .cold → rt'.io = rt.io.zeroImages ∧
+      rt'.io.inputs = List.replicate rt.io.inputs.length 0 ∧
+      rt'.io.outputs = List.replicate rt.io.outputs.length 0 ∧
+      rt'.io.memory = List.replicate rt.io.memory.length 0) ∧
+    rt'.driver = rt.driver := by
   obtain ⟨s1, s2, _, _, h3⟩ := restart_decompose mode rt rt' h
   subst h3
-  refine ⟨rfl, rfl, rfl, rfl, rfl, rfl, rfl, rfl, rfl, ?_, rfl, rfl, ?_, ?_⟩
+  refine ⟨rfl, rfl, rfl, rfl, rfl, rfl, rfl, rfl, rfl, ?_, rfl, rfl, ?_, ?_, rfl⟩
   · cases mode <;> simp [Mode.isWarm, Io.zeroImages]
   · intro hm; subst hm; simp [Mode.isWarm]
-  · intro hm; subst hm; simp [Mode.isWarm]
+  · intro hm; subst hm
+    simp [Mode.isWarm, Io.zeroImages, map_zero_eq_replicate]
 
 /-! ## Power cycle with a retain store (save, new process, load) -/
 
@@ -432,6 +439,13 @@ image is zeroed; before the fix the stale image gave 4). -/
 theorem c09_witness_images_agrees :
     W.run2 = some (some 1) ∧ W.fresh2 = some (some 1) := by decide
 
+/-- **Regression witness (a cold restart keeps the image lengths).**  Witness 9: images sized
+(2, 2, 0), a field driver presenting `[1, 42]`.  After cycle + `restart(Cold)` the lengths are still
+(2, 2, 0), in the next cycle the driver is handed a 2-byte input slice and the outputs follow the
+field (`[1, 42]`) — exactly as on the freshly built, equally sized runtime.  (Harness case 9.) -/
+theorem c09_witness_image_lengths_kept :
+    W.run9 = some ((2, 2, 0), some 2, [1, 42]) ∧ W.fresh9 = W.run9 := by decide
+
 /-- **Cold = fresh, counterexample (VAR_CONFIG values).**  Witness 5: the build applies
 `VAR_CONFIG P0.w := 300`; `restart(Cold)` re-initialises `w` to the POU's initial value 0. -/
 theorem c09_counterexample_config_init :
@@ -456,7 +470,9 @@ Remaining guard: no VAR_CONFIG values (`hci`).  Then after `restart(Cold)`:
   shows — observed by path, instance ids hidden — exactly what it shows in the fresh runtime;
 * time, fault latch, cycle counter, frame count and every task's scheduling state (including the
   `last_single` edge detector, whatever the SINGLE variable's initial value) are the fresh ones;
-* the %I, %Q and %M images read as the fresh (all-zero) images at every address.
+* the %I, %Q and %M images ARE the images of the fresh runtime after it has been sized
+  (`resizeIo`, what start-up does) to the lengths `rt` had: same lengths, all zero — so an I/O
+  driver is handed slices of the same length as on a fresh start.
 
 This is the state every subsequent cycle reads (`cycle` reads nothing else besides the bindings,
 covered by `c09_bindings_live_partial`).  That equal observations yield equal outputs for every
@@ -474,9 +490,9 @@ theorem c09_cold_fresh_partial (src : Source) (fr rt rt' : Runtime)
       rt'.readProgPath p.name d.name member = fr.readProgPath p.name d.name member) ∧
     rt'.time = fr.time ∧ rt'.fault = fr.fault ∧ rt'.cycleCounter = fr.cycleCounter ∧
     rt'.storage.frames = fr.storage.frames ∧ rt'.taskState = fr.taskState ∧
-    (∀ i, byteAt rt'.io.inputs i = byteAt fr.io.inputs i ∧
-          byteAt rt'.io.outputs i = byteAt fr.io.outputs i ∧
-          byteAt rt'.io.memory i = byteAt fr.io.memory i) := by
+    (let sized := resizeIo fr rt.io.inputs.length rt.io.outputs.length rt.io.memory.length
+     rt'.io.inputs = sized.io.inputs ∧ rt'.io.outputs = sized.io.outputs ∧
+     rt'.io.memory = sized.io.memory) := by
   obtain ⟨hm, hp, hf, htk⟩ := hsame
   have hnd : (src.globals.map (·.name)).Nodup := by
     have := hwf.globalsNodup
@@ -539,10 +555,9 @@ theorem c09_cold_fresh_partial (src : Source) (fr rt rt' : Runtime)
     unfold readGP at a b
     simp only at a b
     rw [a, b]
-  · intro i
-    rw [r3, b11, b12, b13]
-    simp only [Mode.isWarm, Bool.false_eq_true, if_false, Io.zeroImages, byteAt_zero_map]
-    simp [byteAt]
+  · simp only [resizeIo, b11, b12, b13, vecResize_nil]
+    rw [r3]
+    simp [Mode.isWarm, Io.zeroImages, map_zero_eq_replicate]
 
 /-- **Instances that existed before a restart are never touched by it.**  In particular a
 RETAIN/PERSISTENT FB-typed global keeps (by `c09_warm_globals_kept`) its instance handle AND the
